@@ -21,7 +21,12 @@ import decgen  # noqa: E402
 
 BFS = ["0.5", "0.3", "0.2", "0.25", "0.25", "1e-12", "3.5e-7", "0.0001234567", "1", "1.0", "0.999", "0.0542", "0.0271",
        "0.533", "0.08", "2E-4", ".5", "0", "0.0", "0.125", "7.5e-3", "0.3333333", "0.6666667"]
-SCALES = [None, None, "norm", "0.001", "0.5", "1", "0", "1.5", "-1", "0.25", "1.0"]
+SCALES = [None, None, "norm", "0.001", "0.5", "1", "0", "1.5", "-1", "0.25", "1.0", "nan", "inf"]
+
+
+def scale_q(sc):
+    """the scale as the model sees it: a not-a-number is outside ]0, 1] like any other value that is not in it"""
+    return Fraction(-1) if sc == "nan" else Fraction(10) ** 400 if sc == "inf" else Fraction(sc)
 
 
 def impl_main(mode, fin, fout):
@@ -93,7 +98,7 @@ def oracle_rows(c, res):
     o = c["opts"]
     viol = []
     lines = c["lines"]
-    bad = (o["scale"] is not None and (o["normalize"] or not (0 < Fraction(o["scale"]) <= 1)))
+    bad = (o["scale"] is not None and (o["normalize"] or not (0 < scale_q(o["scale"]) <= 1)))
     if bad:
         return [] if isinstance(res, dict) and res.get("err") == "RuntimeError" else ["contradictory or out-of-range options not refused"]
     if not c["has_table"]:
@@ -116,9 +121,9 @@ def oracle_rows(c, res):
     if o["normalize"]:
         norm = sum(Fraction(l["bf"]) for l in lines)
     elif o["scale"] is not None:
-        if not lines or Fraction(o["scale"]) == 0:
+        if not lines or scale_q(o["scale"]) == 0:
             return ["rows printed although the requested scale is undefined or refused"] if not lines and res else []
-        norm = max(Fraction(l["bf"]) for l in lines) / Fraction(o["scale"])
+        norm = max(Fraction(l["bf"]) for l in lines) / scale_q(o["scale"])
     if norm == 0:
         return ["rows printed although the requested normalisation / scale is undefined (zero sum or zero maximum)"]
     for k, i in enumerate(srt):
@@ -163,6 +168,14 @@ def gen_cases(rng, tier, pdgmap):
             a, b = rng.choice([("0.10000001", "0.10000004"), ("0.25000003", "0.25000001"), ("1.0000000e-3", "1.00000004e-3"), ("0.33333331", "0.33333334")])
             i, j = rng.sample(range(nl), 2)
             lines[i]["bf"], lines[j]["bf"] = a, b
+        if nl >= 3 and rng.random() < 0.12:
+            # a sum that is one to six digits but not to seven: normalising must still divide by it
+            tpl = rng.choice([("0.6", "0.25", "0.1500009"), ("0.3333333", "0.3333333", "0.3333333"), ("0.5", "0.4999995", "0.0000001"), ("0.7000004", "0.2", "0.1")])
+            idx = rng.sample(range(nl), 3)
+            for l in lines:
+                l["bf"] = "1e-9"
+            for i, v in zip(idx, tpl):
+                lines[i]["bf"] = v
         evt, pdg = rng.choice(pdgmap)
         stmts = [["Decay", evt, lines]]
         if rng.random() < 0.3:
@@ -190,15 +203,15 @@ def coq_case(c):
     o = c["opts"]
     opts = ("{| o_print_model := " + cbool(o["print_model"]) + "; o_photos_kw := " + cbool(o["photos_kw"]) + "; o_ascending := "
             + cbool(o["ascending"]) + "; o_normalize := " + cbool(o["normalize"]) + "; o_scale := "
-            + ("None" if o["scale"] is None else f"(Some {cq(Fraction(o['scale']))})") + " |}")
+            + ("None" if o["scale"] is None else f"(Some {cq(scale_q(o['scale']))})") + " |}")
     if not c["has_table"]:
-        return f"vpres (print_rows {opts} None)"
+        return f"vpres_fl {opts} None"
     rows = []
     for l in c["lines"]:
         disp = [] if l["params"] is None else [str(float(t)) if k == "num" else t for k, t in l["params"]]
         rows.append("{| p_bf := " + cq(Fraction(l["bf"])) + "; p_fs := " + clist([cstr(x) for x in l["fs"]]) + "; p_photos := "
                     + cbool(l["photos"]) + "; p_model := " + cstr(l["model"]) + "; p_params := " + clist([cstr(x) for x in disp]) + " |}")
-    return f"vpres (print_rows {opts} (Some {clist(rows)}))"
+    return f"vpres_fl {opts} (Some {clist(rows)})"
 
 
 def main():
@@ -209,8 +222,9 @@ def main():
     ck = Check("C16", args.tier, args.seed)
     ck.proofs("Props/C16.v", extra_trusted=[
         "the {:.7g} rendering is modelled (coq/Dec/Fmt7.v: correctly rounded 7 significant digits, ties to even, fixed / exponent notation, "
-        "trailing zeros removed) and compared as text with the printed number; the float arithmetic before it (float(literal), sum, division) "
-        "is CPython's: the model formats the exact rational and the rational moved by 2^-46 either way, the printed text must be one of them; "
+        "trailing zeros removed) and compared as text with the printed number; the float arithmetic before it is modelled as well "
+        "(coq/Dec/Fl64.v: binary64 round-to-nearest-even on exact rationals for float(literal), CPython 3.12's compensated sum(), division), "
+        "so the printed text must be exactly the model's; that CPython's float(), sum() and / are these operations is tied by this comparison; "
         "str(float) of numeric parameters is CPython's",
         "hand-written model coq/Dec/Print.v tied by correspondence; py/decgen.py renders the table to .dec text"])
     if args.replay:
@@ -221,15 +235,19 @@ def main():
         pdgmap = [(e, p) for e, p in evt2pdg.items() if e != p and all(ch not in e for ch in " ") and e[0].isalpha()][:60]
         cases = gen_cases(ck.rng, args.tier, pdgmap)
     impl = vlib.run_impl("c16.py", cases)
-    model = vlib.run_model("C16", ["Lib.PyDict", "Decay.ChainDict", "Dec.Tables", "Dec.Print"], "fun v : val => v",
-                           [coq_case(c) for c in cases], shard=400)
+    model2 = vlib.run_model("C16", ["Lib.PyDict", "Decay.ChainDict", "Dec.Tables", "Dec.Print", "Dec.Fl64"], "fun v : val => v",
+                            [coq_case(c) for c in cases], shard=400)
+    model = [m[0] for m in model2]
+    exact_texts = [m[1] for m in model2]          # the text of every number, from the binary64 model (None: outside its range)
+    ck.notes["numbers_with_exact_text"] = sum(len(t) for t in exact_texts if t is not None)
+    ck.notes["tables_outside_the_float_model"] = sum(1 for m, t in zip(model, exact_texts) if t is None and not isinstance(m, dict))
 
-    def agree(iv, mv):
+    def agree(iv, mv, ex=None):
         if isinstance(iv, dict) or isinstance(mv, dict):
             return iv == mv
         if len(iv) != len(mv):
             return False
-        for ln, (qv, tail, g7) in zip(iv, mv):
+        for k, (ln, (qv, tail, g7)) in enumerate(zip(iv, mv)):
             sp = split_line(ln)
             if sp is None:
                 return False
@@ -239,11 +257,15 @@ def main():
             # moved by 2^-46 relatively: the float the implementation formats is a few ulps from the exact rational)
             if sp[0] not in g7:
                 return False
+            # ... and, the float arithmetic being modelled too (coq/Dec/Fl64.v: float(literal), sum(), division in binary64), exactly
+            # the one text the model computes for this row
+            if ex is not None and sp[0] != ex[k]:
+                return False
             if expected_line(sp[0], tail) != ln:
                 return False
         return True
 
-    diffs = [i for i, (a, b) in enumerate(zip(impl, model)) if not agree(a, b)]
+    diffs = [i for i, (a, b, e) in enumerate(zip(impl, model, exact_texts)) if not agree(a, b, e)]
     ck.cov["evaluations"] += len(cases)
     ck.cov["traces_validated_against_impl"] += len(cases) - len(diffs)
     ck.cov["distinct_nontrivial"] = len({json.dumps(c, sort_keys=True) for c in cases if len(c["lines"]) > 1})
